@@ -63,6 +63,13 @@ namespace sqf::runtime
                 {
                     return;
                 }
+                else if (res->second == invalid_id)
+                {
+                    // the key was deleted: its slot in m_children_vec stays a deleted marker
+                    // (the marker does not say which key it belonged to), the new entry is
+                    // declared now and goes to the end
+                    m_children_vec.push_back(target_id);
+                }
                 else
                 {
                     for (auto& it : m_children_vec)
@@ -289,8 +296,8 @@ namespace sqf::runtime
 
                 // Find the targeted config ...
                 auto find_res = container.find(target);
-                if (find_res == container.end())
-                { // ... not found
+                if (find_res == container.end() || find_res->second == config::invalid_id)
+                { // ... not found (or deleted: the marker refers to no container)
                     // Create new container
                     auto& created = m_confighost.m_containers.emplace_back(m_confighost.m_containers.size(), target); // container might be invalidated here due to m_containers resizing.
 
